@@ -162,6 +162,62 @@ def oracle(rep, mesh, impl, A, U, rng, mi):
     rep.nontrivial(("mesh", n, E, ncomp))
 
 
+def custom_weights(rep, rng, mesh, A, mi, wtexts, wcases):
+    """build_laplacian / build_gradient with user-supplied edge weights (the `weights=` argument)."""
+    from tdgl.finite_volume import operators as ops
+    import copy
+    em = mesh.edge_mesh
+    E, n = len(em.edges), len(mesh.sites)
+    w = np.array([rng.uniform(0.2, 3.0) for _ in range(E)])
+    Lw = ops.build_laplacian(mesh, weights=w)[0]
+    LUw = ops.build_laplacian(mesh, link_exponents=A, weights=w)[0]
+    case = {"mesh": mi, "sites": n, "edges": E, "variant": "custom weights"}
+    a = mesh.areas
+    S = (sp.diags(a) @ Lw).toarray()
+    if np.max(np.abs(Lw @ np.ones(n))) > 1e-9 * np.max(np.abs(Lw.toarray()).sum(axis=1)):
+        rep.violation("scalar Laplacian with custom positive weights does not annihilate constants", case)
+    if np.max(np.abs(S - S.T)) > 1e-10 * np.max(np.abs(S)):
+        rep.violation("area-weighted scalar Laplacian with custom weights not symmetric", case)
+    ev = np.linalg.eigvalsh((S + S.T) / 2)
+    if ev[-1] > 1e-9 * abs(ev[0]):
+        rep.violation(f"Laplacian with custom positive weights not negative semi-definite (max eig {ev[-1]:.3e})", case)
+    H = (sp.diags(a) @ LUw).toarray()
+    if np.max(np.abs(H - H.conj().T)) > 1e-10 * np.max(np.abs(H)):
+        rep.violation("covariant Laplacian with custom weights not Hermitian", case)
+    # model: an edge with dual length w*len has lap_w = w
+    m2 = copy.copy(mesh)
+    m2.edge_mesh = copy.copy(em)
+    m2.edge_mesh.dual_edge_lengths = w * em.edge_lengths
+    U = np.exp(-1j * np.einsum("ij, ij -> i", A, em.directions))
+    t = HEADER + meshes.mesh_literal(m2)
+    t += f"Definition U : list (float*float) :=\n{coq_list([clit(u) for u in U], per_line=2)}.\n"
+    t += "Eval vm_compute in zidx (lap_coo OpsF a es).\n"
+    t += "Eval vm_compute in zidx (clap_coo OpsF a [] es U).\n"
+    wtexts.append(t)
+    wcases.append((mi, {"lap_w": Lw, "clap_w": LUw}))
+    rep.count(1)
+
+
+def refreshed_operators(rep, rng, mesh, mi):
+    """The operators actually in use (MeshOperators after in-place refreshes) must satisfy the identities too."""
+    from tdgl.finite_volume.operators import MeshOperators
+    from tdgl.solver.options import SparseSolver
+    em = mesh.edge_mesh
+    E = len(em.edges)
+    mo = MeshOperators(mesh, SparseSolver.SUPERLU, fixed_sites=np.array([], dtype=np.int64), fix_psi=False)
+    mo.build_operators()
+    for k in range(3):
+        mo.set_link_exponents(np.array([[rng.gauss(0, 1), rng.gauss(0, 1)] for _ in range(E)]))
+    H = (sp.diags(mesh.areas) @ mo.psi_laplacian).toarray()
+    if np.max(np.abs(H - H.conj().T)) > 1e-10 * np.max(np.abs(H)):
+        rep.violation("covariant Laplacian in use after in-place refreshes is not Hermitian", {"mesh": mi, "refreshes": 2})
+    mo.set_link_exponents(np.zeros((E, 2)))
+    one = np.ones(len(mesh.sites))
+    if np.max(np.abs(mo.psi_laplacian @ one)) > 1e-9 * np.max(np.abs(mo.psi_laplacian.toarray()).sum(axis=1)):
+        rep.violation("covariant Laplacian refreshed back to A = 0 does not annihilate constants", {"mesh": mi})
+    rep.count(1)
+
+
 def run(rep: common.Report, tier: str, seed: int, replay=None) -> int:
     rep.use_props(common.check_props("C03"))
     rng = random.Random(seed * 7919 + 3)
@@ -174,6 +230,7 @@ def run(rep: common.Report, tier: str, seed: int, replay=None) -> int:
     for k in range(ndev):
         specs.append(("device", k % 3, rng.choice([2, 3, 4]), rng.choice([0, 2])))
     texts, cases = [], []
+    wtexts, wcases = [], []
     for mi, spec in enumerate(specs):
         if spec[0] == "delaunay":
             mesh = meshes.delaunay_mesh(rng, spec[1], spec[2], smooth=spec[3])
@@ -190,10 +247,24 @@ def run(rep: common.Report, tier: str, seed: int, replay=None) -> int:
         w = np.array([rng.gauss(0, 1) for _ in range(E)])
         texts.append(model_text(mesh, U, fixed, v, w))
         cases.append((spec, mesh, impl, v, w, fixed))
+        custom_weights(rep, rng, mesh, A, mi, wtexts, wcases)
+        refreshed_operators(rep, rng, mesh, mi)
         rep.count(1)
         rep.sample({"mesh": list(map(str, spec)), "sites": n, "edges": E, "fixed_sites": len(fixed)})
     outs = common.run_model_shards("c03_case", texts, jobs=8)
     ndis = 0
+    wouts = common.run_model_shards("c03_wcase", wtexts, jobs=8)
+    for (rc, out), (mi, implw) in zip(wouts, wcases):
+        if rc != 0:
+            rep.not_shown("correspondence: model evaluation failed (custom weights)", {"mesh": mi, "log": out[-1200:]})
+            continue
+        for k, name in enumerate(["lap_w", "clap_w"]):
+            blk = common.parse_nested(common.eval_block(out, k))[0]
+            bad = cmp_dicts(coo_dict(blk), sparse_dict(implw[name]), tol=1e-10)
+            if bad:
+                ndis += 1
+                rep.not_shown(f"correspondence: build_laplacian(weights=w) [{name}] entries differ from the model",
+                              {"mesh": mi, "first": bad[:3]})
     for mi, ((rc, out), (spec, mesh, impl, v, w, fixed)) in enumerate(zip(outs, cases)):
         if rc != 0:
             rep.not_shown("correspondence: model evaluation failed", {"mesh": mi, "log": out[-1500:]})
